@@ -4,8 +4,9 @@
     Bernoulli(p).cdf = Binomial(p,1).cdf           (needs I_x(1,1) = x)
     Geometric(p) vs NegativeBinomial(1,p), shifted by one (Geometric counts trials, support ≥ 1;
       NegativeBinomial counts failures, support ≥ 0)    (needs ln Γ(1) = 0)
-  plus a genuine DEFECT of `Geometric::pmf`: `x as i32 - 1` wraps for `x ≥ 2³¹`, so the "mass"
-  exceeds 1 there (`geometric_pmf_i32_wrap_counterexample`).
+  plus, after the source fix `(1.0 - p).powf((x - 1) as f64)` (was `powi(x as i32 - 1)`, which
+  wrapped for `x ≥ 2³¹`): the closed form of `Geometric::pmf` for EVERY `x ≥ 1` and
+  `0 ≤ pmf ≤ 1` (`geometric_pmf_closed`, `geometric_pmf_mem_unit`).
 -/
 import Statrs.Real.Simp
 import Statrs.Gen.D_binomial
@@ -84,14 +85,15 @@ theorem geometric_ln_pmf_eq_negBin_rel (x : Int) (hx : 1 ≤ x) :
   rw [add_comm (1 : ℝ) ((x - 1 : Int) : ℝ)]
   ring_nf
 
-/-- mass: `P_G(x) = P_NB(x − 1)` for `1 ≤ x < 2³¹` (the range where `x as i32` does not wrap) -/
-theorem geometric_pmf_eq_negBin_rel (x : Int) (hx : 1 ≤ x) (hx31 : x < 2147483648) :
+/-- mass: `P_G(x) = P_NB(x − 1)` for EVERY `x ≥ 1` (the fixed source raises `1 − p` to the
+    `f64` power `(x − 1) as f64`; the former `x as i32` restriction `x < 2³¹` is gone) -/
+theorem geometric_pmf_eq_negBin_rel (x : Int) (hx : 1 ≤ x) :
     Geometric.pmf d x = NegativeBinomial.pmf (geomAsNegBin d) (x - 1) := by
   unfold Geometric.pmf NegativeBinomial.pmf NegativeBinomial.ln_pmf geomAsNegBin
   rfun_norm; lit_norm
   have hx0 : x ≠ 0 := by omega
-  have hw : wrapI32 x = x := by unfold wrapI32; omega
-  simp only [hx0, if_false, hw, S.ln_gamma_one]
+  have hu : usub x 1 = x - 1 := by unfold usub; simp [not_lt.mpr hx]
+  simp only [hx0, if_false, hu, S.ln_gamma_one]
   rw [add_comm (1 : ℝ) ((x - 1 : Int) : ℝ)]
   have h1p : 0 < 1 - d.f_p := by linarith
   have e : Real.exp (SF.ln_gamma (((x - 1 : Int) : ℝ) + 1) - 0 - SF.ln_gamma (((x - 1 : Int) : ℝ) + 1)
@@ -101,34 +103,49 @@ theorem geometric_pmf_eq_negBin_rel (x : Int) (hx : 1 ≤ x) (hx31 : x < 2147483
       + 1 * Real.log d.f_p + ((x - 1 : Int) : ℝ) * Real.log (1 + -d.f_p)
       = Real.log d.f_p + Real.log (1 - d.f_p) * ((x - 1 : Int) : ℝ) by ring_nf,
       Real.exp_add, Real.exp_log hp0]
-  rw [e, ← Real.rpow_def_of_pos h1p, Real.rpow_intCast]
-  ring
+  rw [e, ← Real.rpow_def_of_pos h1p, mul_comm]
 
 end geometric
 
-/-! ### the `i32` wrap in `Geometric::pmf` -/
+/-! ### `Geometric::pmf` after the `powf` fix: closed form and range, for every `x : u64` -/
 
-private lemma half_zpow_gt_one (n : ℕ) (hn : 1 ≤ n) :
-    1 < ((1 : ℝ) - 1 / 2) ^ (-(n : ℤ) - 1) * (1 / 2) := by
-  have h2 : ((1 : ℝ) - 1 / 2) = (2 : ℝ)⁻¹ := by norm_num
-  rw [h2, show (-(n : ℤ) - 1) = -((n + 1 : ℕ) : ℤ) by push_cast; ring, zpow_neg, zpow_natCast,
-    inv_pow, inv_inv, pow_succ]
-  have : (1 : ℝ) < 2 ^ n := one_lt_pow₀ (by norm_num) (by omega)
-  linarith
-
-/-- DEFECT: `Geometric(1/2).pmf(2³¹) > 1`.  `x as i32` maps `2³¹` to `−2³¹`, the exponent of
-    `(1 − p)` becomes negative and the returned "probability" is `2^(2³¹)`.  (In a debug build the
-    `- 1` overflows `i32` and panics instead.)  So `Geometric.pmf` is not a mass function and the
-    identity with NegativeBinomial(1, p) cannot extend beyond `x < 2³¹`. -/
-theorem geometric_pmf_i32_wrap_counterexample :
-    1 < Geometric.pmf (⟨1 / 2⟩ : Geometric ℝ) 2147483648 := by
+/-- closed form on the support: `pmf(x) = (1 − p)^(x − 1) · p` (natural-number power) for every
+    `x ≥ 1` and every `p` — no `i32` wrap any more. -/
+theorem geometric_pmf_closed (d : Geometric ℝ) (x : Int) (hx : 1 ≤ x) :
+    Geometric.pmf d x = (1 - d.f_p) ^ (x - 1).toNat * d.f_p := by
   unfold Geometric.pmf
   rfun_norm; lit_norm
-  have hw : wrapI32 2147483648 - 1 = -((2147483648 : ℕ) : ℤ) - 1 := by
-    unfold wrapI32; norm_num
-  have h0 : ¬ ((2147483648 : Int) = 0) := by norm_num
-  simp only [h0, if_false, hw]
-  exact half_zpow_gt_one 2147483648 (by norm_num)
+  have hx0 : x ≠ 0 := by omega
+  have hu : usub x 1 = x - 1 := by unfold usub; simp [not_lt.mpr hx]
+  simp only [hx0, if_false, hu]
+  have hc : ((x - 1 : Int) : ℝ) = (((x - 1).toNat : ℕ) : ℝ) := by
+    have : (x - 1 : Int) = (((x - 1).toNat : ℕ) : Int) := (Int.toNat_of_nonneg (by omega)).symm
+    exact_mod_cast congrArg (fun z : Int => (z : ℝ)) this
+  rw [hc, Real.rpow_natCast]
+
+/-- `Geometric::pmf` takes values in `[0, 1]` for every `x : u64` (`x ≥ 0`) under the
+    constructor's hypotheses `0 < p ≤ 1`.  (Replaces the former
+    `geometric_pmf_i32_wrap_counterexample`: with `powi(x as i32 - 1)` the value at `x = 2³¹`
+    was `2^(2³¹) > 1`.) -/
+theorem geometric_pmf_mem_unit (d : Geometric ℝ) (hp0 : 0 < d.f_p) (hp1 : d.f_p ≤ 1)
+    (x : Int) (hx : 0 ≤ x) : 0 ≤ Geometric.pmf d x ∧ Geometric.pmf d x ≤ 1 := by
+  rcases hx.eq_or_lt with h0 | hpos
+  · subst h0
+    unfold Geometric.pmf; rfun_norm; lit_norm; simp
+  · rw [geometric_pmf_closed d x (by omega)]
+    have hq0 : 0 ≤ 1 - d.f_p := by linarith
+    have hq1 : 1 - d.f_p ≤ 1 := by linarith
+    have hpw0 : 0 ≤ (1 - d.f_p) ^ (x - 1).toNat := pow_nonneg hq0 _
+    have hpw1 : (1 - d.f_p) ^ (x - 1).toNat ≤ 1 := pow_le_one₀ hq0 hq1
+    exact ⟨mul_nonneg hpw0 hp0.le, by nlinarith⟩
+
+/-- the former defect witness, now correct: `Geometric(1/2).pmf(2³¹) = (1/2)^(2³¹)` (`≤ 1`). -/
+theorem geometric_pmf_two_pow_31 :
+    Geometric.pmf (⟨1 / 2⟩ : Geometric ℝ) 2147483648 = (1 / 2 : ℝ) ^ (2147483648 : ℕ) := by
+  rw [geometric_pmf_closed _ _ (by norm_num)]
+  show ((1 : ℝ) - 1 / 2) ^ ((2147483648 : Int) - 1).toNat * (1 / 2) = _
+  rw [show ((2147483648 : Int) - 1).toNat = 2147483647 by decide,
+    show ((1 : ℝ) - 1 / 2) = 1 / 2 by norm_num, ← pow_succ]
 
 example : ∃ (_ : SF ℝ) (_ : RelatedSpec) (d : Geometric ℝ), 0 < d.f_p ∧ d.f_p < 1 :=
   ⟨witnessSF, relatedSpec_witness, ⟨1 / 2⟩, by norm_num⟩
